@@ -103,7 +103,7 @@ func VerifC10_step() {
 		output:            make(chan []int, 1),
 	}
 	vKnownFields(d, "opts breaker interruptInterval join output passAt unreleased")
-	d.resetPassAt()
+	d.passAt = time.Now()
 	P := vNow() // passAt
 	accept := make([]int64, 0, JS)
 	for i := 0; i < L; i++ {
